@@ -201,7 +201,7 @@ func init() {
 		Cases: func(tier string) int { return tierN(tier, 700, 30000) },
 		Rule: "case = one write history (10-45 ops quick, up to 120 thorough; incl. reopen, prune, rollback, rollback-to-version, load of older versions and re-commits; initial version unset/1/5/10/63/64/127/128/1000000; cache/fast/flush matrix) executed TWICE: bare, and with random read-only calls " +
 			"(Get, Has, GetWithIndex, GetByIndex, GetProof, GetMembershipProof, GetNonMembershipProof, Hash, WorkingHash, Iterate, Iterator, reads and proofs on committed versions) interleaved before every step, including before the first commit. In both runs every SaveVersion hash, the WorkingHash before each commit and after each step, Hash(), and ImmutableTree.Hash of EVERY retained version after EVERY step are compared with the independent reference implementation R; the two runs' commit hashes are compared with each other; one history in three also exports the latest version and imports it into a fresh store (hash must match). " +
-			"R itself is validated in every case against golden hashes copied from the repository's tests. distinct = hash(config, ops); non-trivial = >=3 commits with >=1 removal and >=1 of {reopen, prune, rollback}.",
+			"Every 5th case uses its first handle without an initial Load(): a prefix of 3-6 operations writes to the fresh tree, then issues LoadVersion on the store that still has no version (nothing is loaded, the working tree is kept), with or without a Rollback after it, and the planned history follows. R itself is validated in every case against golden hashes copied from the repository's tests. distinct = hash(config, ops); non-trivial = >=3 commits with >=1 removal and >=1 of {reopen, prune, rollback}.",
 		Assumptions: []string{"R (internal/ref, written from docs/ without importing iavl) is the trusted definition of the IAVL+ rules; it is re-validated against the repository's golden hashes on every case"},
 		Run: func(c *fw.Ctx) {
 			if msg := ref.SelfTest(); msg != "" {
@@ -217,6 +217,7 @@ func init() {
 				p.MaxKeys = 24
 			}
 			pl := v1x.MakePlan(c.Rng, p)
+			v1x.LazyPrefix(pl, c.Index)
 			c.Res.Digest = fw.DigestOf(pl.Cfg, pl.Summary(1000))
 			if c.Index < 2 {
 				c.Res.Sample = pl.Summary(60)
